@@ -143,8 +143,33 @@ fn cmd_run(a: &Args) -> i32 {
                     for _ in 0..*per_block { w.append_value(item(kind, n)).unwrap(); n += 1; }
                     w.flush().unwrap();
                 }
-                let file = w.into_inner().unwrap();
-                let intact: Vec<Value> = Reader::new(&file[..]).unwrap().map(|x| x.unwrap()).collect();
+                let written = w.into_inner().unwrap();
+                // the small files a second time with a block that holds NO objects spliced in behind the first block
+                // (count 0, the codec's encoding of the empty payload, the marker): legal, never written by this Writer
+                let mut file_variants: Vec<Vec<u8>> = vec![written.clone()];
+                if *per_block == 3 {
+                    if let Ok(sp0) = split_file(&written, &schema, codec) {
+                        if sp0.boundaries.len() >= 2 {
+                            let at = sp0.boundaries[1];
+                            let mut payload: Vec<u8> = Vec::new();
+                            if codec.compress(&mut payload).is_ok() {
+                                let mut blk = vec![0u8];
+                                let mut z = (payload.len() as u64) << 1;
+                                loop { if z <= 0x7f { blk.push(z as u8); break; } blk.push(0x80 | (z & 0x7f) as u8); z >>= 7; }
+                                blk.extend_from_slice(&payload);
+                                blk.extend_from_slice(&[0xA5; 16]);
+                                let mut f2 = written[..at].to_vec();
+                                f2.extend_from_slice(&blk);
+                                f2.extend_from_slice(&written[at..]);
+                                file_variants.push(f2);
+                            }
+                        }
+                    }
+                }
+                for (vi, file) in file_variants.into_iter().enumerate() {
+                let nblocks = nblocks + vi;
+                let intact: Vec<Value> = match Reader::new(&file[..]) { Ok(r) => r.filter_map(|x| x.ok()).collect(), Err(_) => continue };
+                if intact.len() != n { eprintln!("intact read of a file variant gives {} of {} values", intact.len(), n); }
                 let sp = split_file(&file, &schema, codec).unwrap();
                 writeln!(out, "{}", json!({"ev":"file","id":small(id),"fid":small(fid),"bytes":bytes_j(&file),"intact_n":small(intact.len()),
                                             "codec":cname,"kind":kind,"per_block":small(*per_block),"nblocks":small(nblocks)})).unwrap();
@@ -215,6 +240,7 @@ fn cmd_run(a: &Args) -> i32 {
                     }
                 }
                 fid += 1;
+                }
             }
         }
     }
